@@ -87,8 +87,29 @@ def run(tier, seed, t0):
                 continue
             for ci, cor in enumerate(corruptions(h, rng, 4 if tier == 'quick' else 12)):
                 cases.append(('c%d_%d' % (gi, ci), r['tid'], t, 'deserialize', cor))
+        # encodings longer than the decoder's 1 MiB first chunk: exact, followed by two bytes, cut by one byte
+        long_expect = {}
+        for gi, (r, t, h) in enumerate(good):
+            if len(h) <= 2 * (1 << 20):
+                continue
+            for tag, mode, inp, want in (('a', 'try_from_slice', h + '6162', 'err'), ('b', 'try_from_slice', h, 'ok'),
+                                         ('c', 'deserialize', h + '6162', 'ok'), ('d', 'try_from_slice', h[:-2], 'err')):
+                cases.append(('L%d_%s' % (gi, tag), r['tid'], t, mode, inp))
+                long_expect['L%d_%s' % (gi, tag)] = want
+        stats['long_encodings'] = stats.get('long_encodings', 0) + len(long_expect) // 4
         kindof = {cid: kind for cid, _, _, _, kind in inputs}
         drecs = stage_decm(cfg, exe, driver, cases)
+        for r in drecs:
+            want = long_expect.get(r['cid'])
+            if want and not (r['impl'] or 'missing').startswith(want):
+                failures.append({'class': 'long-encoding', 'key': '%s %s %d' % (r['type'], r['cid'][-1], len(r['input']) // 2),
+                                 'what': 'an encoding of %d bytes of %s %s: %s gives %s [%s]' % (
+                                     len(r['input']) // 2 - {'a': 2, 'c': 2, 'd': -1}.get(r['cid'][-1], 0), r['type'],
+                                     {'a': 'followed by two more bytes must be refused', 'b': 'must be accepted', 'c': 'followed by two more bytes must decode and leave them',
+                                      'd': 'cut by its last byte must be refused'}[r['cid'][-1]], r['mode'], (r['impl'] or 'missing')[:120], cfg),
+                                 'type': r['type'], 'input_len': len(r['input']) // 2, 'cfg': cfg,
+                                 'input': 'the implementation\'s own encoding of the big case of this type (lib/codec.py gen_big_cases, seed %d)%s' % (
+                                     seed, {'a': ' + 6162', 'c': ' + 6162', 'd': ' minus its last byte', 'b': ''}[r['cid'][-1]])})
         stats['evaluations'] += len(drecs)
         per_cfg[cfg] = {r['cid']: r for r in drecs}
         acc = [r for r in drecs if (r['impl'] or '').startswith('ok')]
@@ -115,9 +136,10 @@ def run(tier, seed, t0):
                 if o is None or not o.startswith('ok same'):
                     t = tmap[r['tid']]
                     cls = 'index-duplicates' if r['cid'] in f8 else 'strict-not-bijective'
-                    failures.append({'class': cls, 'key': '%s %s' % (r['type'], r['input']),
-                                     'what': 'strict mode accepted an input that does not re-serialize to itself: %s on %s -> %s; re-encode: %s [%s]' % (r['type'], r['input'], r['impl'], o, cfg),
-                                     'type': r['type'], 'input': r['input'], 'result': r['impl'], 'reencode': o, 'cfg': cfg})
+                    sh = lambda x: x if len(str(x)) <= 400 else '%s... (%d characters)' % (str(x)[:120], len(str(x)))
+                    failures.append({'class': cls, 'key': '%s %s' % (r['type'], sh(r['input'])),
+                                     'what': 'strict mode accepted an input that does not re-serialize to itself: %s on %s -> %s; re-encode: %s [%s]' % (r['type'], sh(r['input']), sh(r['impl']), sh(o), cfg),
+                                     'type': r['type'], 'input': sh(r['input']), 'result': sh(r['impl']), 'reencode': sh(o), 'cfg': cfg})
         for r in drecs:
             impl = r['impl'] or 'missing'
             classes[kindof.get(r['cid'], 'corrupt') + ':' + error_class(impl)] += 1
